@@ -89,7 +89,17 @@ func (m *x64Sim) setReg(name string, v uint64) bool {
 	return true
 }
 
-var reX64Mem = regexp.MustCompile(`^(byte|word|dword|qword) ptr \[rbp%\+d\]$`)
+var reX64Mem = regexp.MustCompile(`^(byte|word|dword|qword) ptr \[([^\]]+)\]$`)
+
+// x64World: what the interpreted lines see besides the operand slots — the values of global symbols read through
+// `[rip+%s]` (by the text of the argument), the values of numeric template arguments such as a memarg offset (by the text
+// of the argument), and linear memory (absolute address -> byte). Writes go to Written.
+type x64World struct {
+	Syms    map[string]uint64
+	Imms    map[string]int64
+	Mem     map[uint64]byte
+	Written map[uint64]byte
+}
 
 func parseImm(s string) (uint64, bool) {
 	s = strings.TrimSpace(s)
@@ -119,7 +129,47 @@ type x64Slot struct {
 // x64Run interprets the lines. slots: contents of the operand slots by the name of the Go variable that holds the
 // slot's offset; ret: the name of the result slot. Answers the stored bits and the width of the last store to ret.
 func x64Run(lines []x64Line, slots map[string]x64Slot, ret string) (uint64, int, string) {
+	return x64RunW(lines, slots, ret, nil)
+}
+
+func x64RunW(lines []x64Line, slots map[string]x64Slot, ret string, world *x64World) (uint64, int, string) {
 	m := &x64Sim{gpr: map[string]uint64{}, xmm: map[string]uint64{}}
+	// memAddr: the linear address a memory operand other than a slot names ("" when it is a slot); sym for [rip+%s]
+	var nextArgFn func() string
+	memAddr := func(inner string) (addr uint64, kind string, ok bool) {
+		inner = strings.TrimSpace(inner)
+		switch {
+		case inner == "rbp%+d":
+			return 0, "slot", true
+		case inner == "rip+%s":
+			return 0, "sym", true
+		}
+		if world == nil {
+			return 0, "", false
+		}
+		var sum uint64
+		for _, term := range strings.FieldsFunc(strings.ReplaceAll(strings.ReplaceAll(inner, "%+d", "+%d"), "-", "+-"), func(r rune) bool { return r == '+' }) {
+			term = strings.TrimSpace(term)
+			switch {
+			case term == "":
+			case term == "%d":
+				v, okv := world.Imms[nextArgFn()]
+				if !okv {
+					return 0, "", false
+				}
+				sum += uint64(v)
+			default:
+				if v, _, okr := m.getReg(term); okr {
+					sum += v
+				} else if v, oki := parseImm(term); oki {
+					sum += v
+				} else {
+					return 0, "", false
+				}
+			}
+		}
+		return sum, "mem", true
+	}
 	labelAt := map[string]int{}
 	for i, l := range lines {
 		if l.label != "" {
@@ -166,11 +216,36 @@ func x64Run(lines []x64Line, slots map[string]x64Slot, ret string) (uint64, int,
 		read := func(o string) (uint64, int, bool) {
 			if mem := reX64Mem.FindStringSubmatch(o); mem != nil {
 				w := map[string]int{"byte": 8, "word": 16, "dword": 32, "qword": 64}[mem[1]]
-				sl, ok := slots[nextArg()]
-				if !ok {
+				nextArgFn = nextArg
+				addr, kind, ok := memAddr(mem[2])
+				switch {
+				case !ok:
 					return 0, 0, false
+				case kind == "slot":
+					sl, ok := slots[nextArg()]
+					if !ok {
+						return 0, 0, false
+					}
+					return sl.bits & maskBits(w), w, true
+				case kind == "sym":
+					if world == nil {
+						return 0, 0, false
+					}
+					v, ok := world.Syms[nextArg()]
+					return v & maskBits(w), w, ok
 				}
-				return sl.bits & maskBits(w), w, true
+				var v uint64
+				for i := 0; i < w/8; i++ {
+					b, okb := world.Written[addr+uint64(i)]
+					if !okb {
+						b, okb = world.Mem[addr+uint64(i)]
+					}
+					if !okb {
+						return 0, 0, false // a read outside the bytes the rule laid out
+					}
+					v |= uint64(b) << (8 * uint(i))
+				}
+				return v, w, true
 			}
 			if strings.HasPrefix(o, "xmm") {
 				v, ok := m.xmm[o]
@@ -190,9 +265,20 @@ func x64Run(lines []x64Line, slots map[string]x64Slot, ret string) (uint64, int,
 		store := func(o string, v uint64) bool {
 			if mem := reX64Mem.FindStringSubmatch(o); mem != nil {
 				w := map[string]int{"byte": 8, "word": 16, "dword": 32, "qword": 64}[mem[1]]
-				if nextArg() == ret {
-					r := v & maskBits(w)
-					result, resWidth = &r, w
+				nextArgFn = nextArg
+				addr, kind, ok := memAddr(mem[2])
+				switch {
+				case !ok || kind == "sym":
+					return false
+				case kind == "slot":
+					if nextArg() == ret {
+						r := v & maskBits(w)
+						result, resWidth = &r, w
+					}
+					return true
+				}
+				for i := 0; i < w/8; i++ {
+					world.Written[addr+uint64(i)] = byte(v >> (8 * uint(i)))
 				}
 				return true
 			}
@@ -588,6 +674,107 @@ func x64Run(lines []x64Line, slots map[string]x64Slot, ret string) (uint64, int,
 				r = bits.OnesCount64(v)
 			}
 			if !m.setReg(ops[0], uint64(r)) {
+				return bad()
+			}
+		case op == "inc" || op == "dec":
+			v, w, ok := read(ops[0])
+			if !ok || w == 0 || w == 128 {
+				return bad()
+			}
+			if op == "inc" {
+				v++
+			} else {
+				v--
+			}
+			v &= maskBits(w)
+			setZS(v, w)
+			m.setReg(ops[0], v)
+		case op == "cdqe":
+			v, _, ok := m.getReg("eax")
+			if !ok {
+				return bad()
+			}
+			m.setReg("rax", uint64(int64(int32(uint32(v)))))
+		case op == "xchg":
+			a, wa, ok1 := read(ops[0])
+			b, wb, ok2 := read(ops[1])
+			if !ok1 || !ok2 || wa != wb || wa == 0 || wa == 128 {
+				return bad()
+			}
+			m.setReg(ops[0], b)
+			m.setReg(ops[1], a)
+		case strings.HasPrefix(op, "cmov") && len(ops) == 2:
+			var cond, known bool
+			switch op[4:] {
+			case "e", "z":
+				cond, known = m.zf, true
+			case "ne", "nz":
+				cond, known = !m.zf, true
+			case "l":
+				cond, known = m.sf != m.of, true
+			case "ge":
+				cond, known = m.sf == m.of, true
+			case "le":
+				cond, known = m.zf || m.sf != m.of, true
+			case "g":
+				cond, known = !m.zf && m.sf == m.of, true
+			case "b":
+				cond, known = m.cf, true
+			case "ae":
+				cond, known = !m.cf, true
+			case "be":
+				cond, known = m.cf || m.zf, true
+			case "a":
+				cond, known = !m.cf && !m.zf, true
+			case "s":
+				cond, known = m.sf, true
+			case "ns":
+				cond, known = !m.sf, true
+			case "p":
+				cond, known = m.pf, true
+			case "np":
+				cond, known = !m.pf, true
+			}
+			v, _, ok := read(ops[1])
+			cur, w, okc := m.getReg(ops[0])
+			if !known || !ok || !okc {
+				return bad()
+			}
+			if cond {
+				m.setReg(ops[0], v)
+			} else if w == 32 {
+				m.setReg(ops[0], cur) // a 32-bit cmov clears the upper half either way
+			}
+		case op == "lea" && len(ops) == 2:
+			// lea reg, [base + index*scale + disp] over registers of the model
+			in := ops[1]
+			if i := strings.IndexByte(in, '['); i >= 0 && strings.HasSuffix(in, "]") {
+				in = in[i+1 : len(in)-1]
+			} else {
+				return bad()
+			}
+			var sum uint64
+			for _, term := range strings.FieldsFunc(strings.ReplaceAll(in, "-", "+-"), func(r rune) bool { return r == '+' }) {
+				term = strings.TrimSpace(term)
+				if term == "" {
+					continue
+				}
+				if j := strings.IndexByte(term, '*'); j >= 0 {
+					v, _, ok := m.getReg(strings.TrimSpace(term[:j]))
+					sc, oks := parseImm(term[j+1:])
+					if !ok || !oks {
+						return bad()
+					}
+					sum += v * sc
+				} else if v, _, ok := m.getReg(term); ok {
+					sum += v
+				} else if v, ok := parseImm(term); ok {
+					sum += v
+				} else {
+					return bad()
+				}
+			}
+			if !m.setReg(ops[0], sum) {
 				return bad()
 			}
 		case op == "neg" || op == "not":
